@@ -25,9 +25,11 @@ P = "param.parameterized."
 def run_case(ctx, f, batch0, keys, fail, same_a=False):
     """fail: None | ('reject', key) | ('unknown', key)"""
     ev = Obj("event_param", _autotrigger_value=True, _autotrigger_reset_value=False, _mode="set-reset")
+    # a second Event parameter that is never among the keys given: update must not touch it
+    ev2 = Obj("other_event_param", _autotrigger_value=True, _autotrigger_reset_value=False, _mode="set-reset")
     pa, pb = Obj("param_a"), Obj("param_b")
-    known = {"a": pa, "b": pb, "e": ev}
-    prev = {"a": Obj("old_a"), "b": Obj("old_b"), "e": False}
+    known = {"a": pa, "b": pb, "e": ev, "e2": ev2}
+    prev = {"a": Obj("old_a"), "b": Obj("old_b"), "e": False, "e2": False}
     given = dict((k, Obj("new_" + k) if k != "e" else True) for k in keys)
     if same_a and "a" in given:
         given["a"] = prev["a"]          # update(a=<the value a already holds>)
@@ -36,7 +38,7 @@ def run_case(ctx, f, batch0, keys, fail, same_a=False):
     target = Obj("target")
     trace = []
     ns = Obj("ns", _BATCH_WATCH=batch0, self_or_cls=target, cls=Obj("Cls", __name__="Cls"),
-             __getitem__=dict(known), __contains__=list(known))
+             __getitem__=dict(known), __contains__=list(known), __iter__=list(known))
 
     def hook(fn, args, kwargs):
         if fn == "hasattr" and len(args) == 2:
@@ -44,24 +46,26 @@ def run_case(ctx, f, batch0, keys, fail, same_a=False):
         if fn == "self_.values":
             return dict(prev)
         if fn == "setattr" and len(args) == 3:
-            trace.append(("set", args[1], "flag=%s" % ns.attrs["_BATCH_WATCH"], "mode=%s" % ev.attrs["_mode"]))
+            trace.append(("set", args[1], "flag=%s" % ns.attrs["_BATCH_WATCH"], "mode=%s" % ev.attrs["_mode"], "mode2=%s" % ev2.attrs["_mode"]))
             if fail and fail[0] == "reject" and args[1] == fail[1] and args[2] is not False:
                 raise _Raise("ValueError")
             return None
         if fn == "self_._batch_call_watchers":
-            trace.append(("flush", "flag=%s" % ns.attrs["_BATCH_WATCH"]))
+            trace.append(("flush", "flag=%s" % ns.attrs["_BATCH_WATCH"], "", "", "mode2=%s" % ev2.attrs["_mode"]))
             return None
         return NotImplemented
-    it = Interp(ctx.hier, call_hook=hook, globals={"Undefined": Obj("Undefined")})
+    # helper methods of the namespace class that _update calls on itself are interpreted too
+    it = Interp(ctx.hier, dyn=P + "Parameters", inline=lambda m: True, call_hook=hook, globals={"Undefined": Obj("Undefined")})
     outs = it.run_all(f, {"self_": ns, "arg": it.globals["Undefined"], "kwargs": dict(given)})
     if len(outs) != 1 or outs[0].imprecise:
         raise AnalysisError("update model: Parameters._update is not interpretable precisely (%s)" % (outs[0].notes[:2] if outs else "no outcome"))
+    ns.attrs["_other_event"] = ev2
     return outs[0], trace, ns, ev, prev, given
 
 
 def update_model(ctx):
     f = ctx.repo.func(P + "Parameters._update")
-    problems = {"C04": [], "C05": [], "C02": []}
+    problems = {"C04": [], "C05": [], "C02": [], "C03": []}
     n = 0
     orders = [["a"], ["a", "b"], ["a", "e"], ["e", "a"], ["a", "e", "b"], ["b", "a", "e"]]
     for batch0 in (False, True):
@@ -83,11 +87,16 @@ def update_model(ctx):
                 want_flush = 0 if batch0 else 1
                 if len(flushes) != want_flush and batch0 and fail:
                     problems["C02"].append("%s: a rejected update flushes inside the enclosing batch: watchers are invoked by an assignment that raised" % desc)
+                if len(flushes) > want_flush or (want_flush and not flushes and not fail):
+                    problems["C03"].append("%s: the flush is called %d time(s), specification %d: watchers are called %s" % (
+                        desc, len(flushes), want_flush, "more than once or too early" if flushes else "never"))
                 if len(flushes) != want_flush:
                     (problems["C04"] if batch0 else problems["C05"]).append("%s: the flush is called %d time(s), specification %d%s" % (
                         desc, len(flushes), want_flush, " (events already applied stay queued)" if want_flush and not flushes else " (delivered inside the enclosing batch)"))
                 elif flushes and flushes[0][1] != "flag=%s" % batch0:
                     problems["C05"].append("%s: the flush runs while the batching flag is still raised" % desc)
+                    problems["C03"].append("%s: the flush runs while the batching flag is still raised: assignments made by the watchers it calls are queued "
+                                           "behind the remaining watchers instead of being dispatched depth-first" % desc)
                 # assignments made with the flag raised, in the order given, up to the failing key
                 name_of = lambda k: "zzz" if (fail and fail[0] == "unknown" and k == fail[1]) else k
                 upto = keys if not fail else keys[: keys.index(fail[1]) + (1 if fail[0] == "reject" else 0)]
@@ -106,11 +115,19 @@ def update_model(ctx):
                     resets = [t for t in sets if t[1] == "e" and t[3] == "mode=reset"]
                     if len(resets) != 1:
                         problems["C05"].append("%s: the Event parameter is reset %d time(s)" % (desc, len(resets)))
+                        problems["C04"].append("%s: the Event parameter is reset %d time(s): it stays set after the update, so its next firing is an unchanged "
+                                               "assignment that changes-only watchers never see" % (desc, len(resets)))
                     elif flushes and trace.index(resets[0]) < trace.index(flushes[0]):
                         problems["C04"].append("%s: the Event parameter is reset before the flush delivered its event" % desc)
                     e_sets = [t for t in main_sets if t[1] == "e"]
                     if any(t[3] != "mode=set" for t in e_sets):
                         problems["C05"].append("%s: the Event is assigned while its mode is %s" % (desc, e_sets[0][3]))
+                # Event parameters that were not given are none of update's business
+                ev2 = ns.attrs["_other_event"]
+                if ev2.attrs["_mode"] != "set-reset" or any(t[4] != "mode2=set-reset" for t in trace) or any(t[1] == "e2" for t in sets):
+                    problems["C02"].append("%s: an Event parameter that is not among the keys given is switched to another mode or assigned "
+                                           "(a rejected update resets an Event that is being delivered)" % desc)
+                    problems["C05"].append("%s: an Event parameter that is not among the keys given is switched to another mode or assigned" % desc)
                 # restore mapping
                 if o.kind == "return":
                     want = {k: prev[k] for k in keys}
